@@ -90,14 +90,14 @@ def build_harness(features=(), release=False):
                     f.write(_sha(lock_src))
         except OSError as e:
             raise BuildError("cannot copy Cargo.lock", str(e))
-        link = os.path.join(HARNESS, "repo-link")
         try:
-            if not (os.path.islink(link) and os.readlink(link) == REPO):
-                if os.path.lexists(link):
-                    os.remove(link)
-                os.symlink(REPO, link)
+            tmpl = open(os.path.join(HARNESS, "Cargo.toml.in")).read().replace("@REPO@", REPO)
+            dst = os.path.join(HARNESS, "Cargo.toml")
+            if (not os.path.exists(dst)) or open(dst).read() != tmpl:
+                with open(dst, "w") as f:
+                    f.write(tmpl)
         except OSError as e:
-            raise BuildError("cannot link the repository into the harness", str(e))
+            raise BuildError("cannot write harness/Cargo.toml", str(e))
         env = dict(os.environ)
         env["VERIF_REPO"] = REPO
         env["CARGO_TARGET_DIR"] = tdir
